@@ -93,8 +93,9 @@ extern "C" void vp_thr_rw_re(spin_rw_mutex* m, spin_rw_mutex::scoped_lock* node,
   vp_done(tid);
 }
 // a further cycle by a fresh object after everybody finished (sequential): must succeed at once
-extern "C" int vp_qm_fresh(queuing_mutex* m) { queuing_mutex::scoped_lock l; bool ok = l.try_acquire(*m); if (ok) l.release(); return ok; }
-extern "C" int vp_rw_fresh(spin_rw_mutex* m) { bool ok = m->try_lock(); if (ok) m->unlock(); return ok; }
+// (the fresh object is built in zeroed harness storage: deterministic contents even where the real constructor leaves fields untouched)
+extern "C" int vp_qm_fresh(queuing_mutex* m, queuing_mutex::scoped_lock* node) { queuing_mutex::scoped_lock& l = *new (node) queuing_mutex::scoped_lock; bool ok = l.try_acquire(*m); if (ok) l.release(); return ok; }
+extern "C" int vp_rw_fresh(spin_rw_mutex* m, spin_rw_mutex::scoped_lock* node) { spin_rw_mutex::scoped_lock& l = *new (node) spin_rw_mutex::scoped_lock; bool ok = l.try_acquire(*m, true); if (ok) l.release(); return ok; }
 // accessors used by the harness oracles (white-box via -fno-access-control)
 extern "C" unsigned long vp_sm_word(spin_mutex* m) { return m->m_flag.load(std::memory_order_relaxed); }
 extern "C" unsigned long vp_qm_word(queuing_mutex* m) { return (unsigned long)m->q_tail.load(std::memory_order_relaxed); }
